@@ -46,7 +46,7 @@ def configs(tier):
     base = [("chain", (2, 1, 1), 2, False, 1), ("planar", (2, 2, 1), 2, False, 1), ("cubic", (2, 2, 2), 2, True, 1),
             ("chain", (3, 1, 1), 3, False, 2)]
     if tier == "thorough":
-        base += [("hexC3", (3, 3, 1), 2, True, 1), ("cubic", (2, 2, 2), 2, False, 2)]
+        base += [("hexC3", (3, 3, 1), 2, True, 1), ("cubic", (2, 2, 2), 2, False, 2), ("bcc", (2, 2, 2), 2, True, 1)]
     Ns = (2, 3) if tier == "quick" else (2, 3, 4)
     for kind, div, mesh, sym, fac in base:
         for N in Ns:
